@@ -57,6 +57,10 @@ pub enum Family {
     /// one), outer part bending away: not collinear, but several points share
     /// an azimuth - and for azimuth 0 a Cartesian coordinate - bit for bit
     Kinked { axis: u8, straight_percent: u8 },
+    /// a curler: points equally spaced on a small circle inside the drift volume
+    /// (radius 5-30 mm, `per_turn` points per turn, half a turn or more), so that
+    /// the innermost and outermost point can be exact antipodes
+    Loop { radius_mm: u8, per_turn: u8 },
 }
 
 #[derive(Clone, Debug, PartialEq, Serialize, Deserialize)]
@@ -180,6 +184,20 @@ fn points_as_generated(g: &Group) -> Vec<SpacePoint> {
                 })
                 .collect()
         }
+        Family::Loop { radius_mm, per_turn } => {
+            let rho = radius_mm.clamp(5, 30) as f64 * 1e-3;
+            let centre_r = 0.11 + rho + (0.07 - 2.0 * rho).max(0.0) * unit(s, 3);
+            // the centre on the x axis for one loop in two: antipodes are then exact
+            let (cx, cy) = if mix(s, 4) & 1 == 0 { (centre_r, 0.0) } else { (centre_r * phi0.cos(), centre_r * phi0.sin()) };
+            let step = 2.0 * PI / per_turn.max(4) as f64;
+            let start = if mix(s, 5) & 1 == 0 { 0.0 } else { unit(s, 6) };
+            (0..n)
+                .map(|i| {
+                    let a = start + step * i as f64;
+                    sp_xyz(cx + rho * a.cos(), cy + rho * a.sin(), z0 + 0.002 * i as f64)
+                })
+                .collect()
+        }
         Family::Kinked { axis, straight_percent } => {
             let base = match axis % 5 {
                 0 => 0.0,
@@ -245,6 +263,7 @@ pub fn family() -> impl Strategy<Value = Family> {
         1 => staircase(),
         1 => (0u8..230, 0u8..4).prop_map(|(theta_bin, alpha_class)| Family::HoughEdge { theta_bin, alpha_class }),
         1 => (0u8..5, 10u8..=90).prop_map(|(axis, straight_percent)| Family::Kinked { axis, straight_percent }),
+        1 => (5u8..=30, prop_oneof![Just(16u8), Just(12u8), Just(32u8), 6u8..=40]).prop_map(|(radius_mm, per_turn)| Family::Loop { radius_mm, per_turn }),
     ]
 }
 
